@@ -8,6 +8,13 @@ static LOG: Mutex<Vec<(u16, &'static str)>> = Mutex::new(Vec::new());
 /// Appends an event.
 pub fn push(port: u16, label: &'static str) {
     if let Ok(mut log) = LOG.lock() {
+        // A loop that spins (e.g. `accept` failing repeatedly) would log millions of identical events: keep at most
+        // three consecutive identical entries.
+        let n = log.len();
+        if n >= 3 && log[n - 3..].iter().all(|e| *e == (port, label)) {
+            return;
+        }
+
         log.push((port, label));
     }
 }
